@@ -10,6 +10,7 @@ import (
 	"time"
 
 	"github.com/aundis/formula"
+	"github.com/ericlagergren/decimal"
 
 	"verifmon/internal/core"
 	"verifmon/internal/obs"
@@ -53,6 +54,8 @@ var tLeaves = []tLeaf{
 	{"df0", false, false, true, false}, {"dnegz", false, false, true, false}, {"dnan", false, false, true, false}, {"(0/0)", false, false, true, false},
 	{"dinf", true, false, true, false}, {"dninf", true, false, true, false}, {"1", true, false, true, false}, {"-1", true, false, true, false}, {"0.1", true, false, true, false}, {"1e-30", true, false, true, false},
 	{"1.50", true, false, true, false}, {"2", true, false, true, false}, {"di7", true, false, true, false},
+	{"1e-400", true, false, true, false}, {"(1e-200*1e-200)", true, false, true, false}, {"(0-1e-400)", true, false, true, false}, {"1e400", true, false, true, false}, {"0.000000000000000000000000000000000001", true, false, true, false},
+	{"dtiny", true, false, true, false}, {"dbig", true, false, true, false},
 	{"''", false, false, false, false}, {"des", false, false, false, false}, {"'0'", true, false, false, false}, {"'a'", true, false, false, false}, {"' '", true, false, false, false}, {"'false'", true, false, false, false}, {"ds", true, false, false, false},
 	{"[]", true, false, false, false}, {"[0]", true, false, false, false}, {"darr", true, false, false, true}, {"dearr", true, false, false, true},
 	{"dm", true, false, false, true}, {"dem", true, false, false, true}, {"dt", true, false, false, true}, {"dfn", true, false, false, true}, {"dst", true, false, false, false}, {"dpst", true, false, false, true},
@@ -63,7 +66,7 @@ type tStruct struct{ A int }
 func c06Data(log *[]string) map[string]interface{} {
 	return map[string]interface{}{
 		"dnilp": (*int)(nil), "dnil": nil, "dz": 0, "df0": 0.0, "dnegz": math.Copysign(0, -1), "dnan": math.NaN(), "dinf": math.Inf(1), "dninf": math.Inf(-1),
-		"di7": int64(7), "des": "", "ds": "str", "darr": []interface{}{1, "x"}, "dearr": []interface{}{}, "dm": map[string]interface{}{"k": 1}, "dem": map[string]interface{}{},
+		"dtiny": decimal.New(1, 500), "dbig": decimal.New(7, -500), "di7": int64(7), "des": "", "ds": "str", "darr": []interface{}{1, "x"}, "dearr": []interface{}{}, "dm": map[string]interface{}{"k": 1}, "dem": map[string]interface{}{},
 		"dt": time.Unix(1700000000, 0).UTC(), "dfn": func() (int, error) { return 1, nil }, "dst": tStruct{3}, "dpst": &tStruct{4},
 		"rec": func(tag string) (string, error) { *log = append(*log, tag); return tag, nil },
 	}
